@@ -77,6 +77,9 @@ def check_move(spec, i, j, left, interp, route="ctor", parts=None):
     from discopy.rewriting import InterchangerError
     if route == "subs":   # a diagram left behind by a substitution
         d = common.substituted(specs.build(spec))[0]
+    elif route == "dagger":   # ... by a dagger (stored differently)
+        d = specs.build(specs.spec_dagger(spec))[::-1]
+        specs.matches_spec(d, spec, "dagger of the dagger")
     elif route == "tensor":   # ... or by a tensor
         d = specs.build(parts[0]) @ specs.build(parts[1])
         specs.matches_spec(d, spec, "tensor")
@@ -162,7 +165,8 @@ def single_cases(draw, tier):
     spec = draw(gen.diagrams(
         cls, max_boxes=8 if big else 6, max_width=6 if big else 5,
         min_boxes=1, names=names, zmax=1, max_arity=2))
-    route = draw(st.sampled_from(["ctor", "whisker", "subs", "tensor"]))
+    route = draw(st.sampled_from(["ctor", "whisker", "subs", "tensor",
+                                  "slice", "dagger"]))
     parts = None
     if route == "tensor":
         # the diagram is the library's tensor of two diagrams, the right one
